@@ -246,6 +246,58 @@ Model(src) ==
 Init == B!Init
 Next == B!Next
 Emit == doc # <<>> => PrintT(ToJson(Model(B!Flatten(doc))))
-\* model-level: the HTML of a document is the HTML of its root blocks parsed alone (C16 at the level of the whole pipeline),
-\* whenever no root block uses or is a reference definition
+\* ------------------------------------------------------------------ model-level lemmas on the composed pipeline (checked by TLC on every generated document)
+RECURSIVE ConcatAll(_)
+ConcatAll(ss) == IF ss = <<>> THEN <<>> ELSE Head(ss) \o ConcatAll(Tail(ss))
+HtmlOf(src) == Model(src).html
+Src == B!Flatten(doc)
+TabFree == \A k \in 1..Len(Src) : Src[k] # TAB
+\* C09, first clause, on HTML: quoting every line (marker with its optional space; and the bare marker when no line starts
+\* with a space, which the marker's optional space would swallow) nests the document's HTML in one <blockquote>
+QuoteWith(d, pre) == [k \in 1..Len(d) |-> pre \o d[k]]
+NoLineStartsWithSpace == \A k \in 1..Len(doc) : doc[k][1] \notin {SP, TAB}
+QuoteHtmlLemma ==
+  (doc # <<>> /\ B!WellFormedDoc(doc) /\ TabFree) =>
+     /\ HtmlOf(B!Flatten(QuoteWith(doc, <<GTC, SP>>))) = << S("<blockquote>") \o ConcatAll(HtmlOf(Src)) \o S("</blockquote>") >>
+     /\ (NoLineStartsWithSpace => HtmlOf(B!Flatten(QuoteWith(doc, <<GTC>>))) = << S("<blockquote>") \o ConcatAll(HtmlOf(Src)) \o S("</blockquote>") >>)
+\* C09, second clause, on HTML: list marker of width W, N spaces, the other lines indented by W + N
+ListHtmlLemma ==
+  (doc # <<>> /\ B!WellFormedDoc(doc) /\ TabFree /\ doc[1][1] # SP /\ B!NoBlankLines(doc)) =>
+     \A mk \in {<<45>>, <<49, 46>>, <<49, 50, 41>>} : \A n \in {1, 3, 4} :
+        LET ld == B!ListDoc(doc, mk, n)
+            ordered == Len(mk) > 1
+            open == IF ~ordered THEN S("<ul>") ELSE IF mk = <<49, 46>> THEN S("<ol") \o S(">") ELSE S("<ol") \o S(" start=\"") \o <<49, 50>> \o S("\"") \o S(">")
+            close == IF ordered THEN S("</ol>") ELSE S("</ul>")
+            inner == B!ParseDoc(Src)
+            \* a one-item list is tight unless two of the item's blocks are separated by a blank line: none here (NoBlankLines),
+            \* so paragraphs that are direct children lose their <p>
+            defs == DefsOf(inner)
+        IN B!ThematicBreak(ld[1], 0) \/
+           HtmlOf(B!Flatten(ld)) = << open \o S("<li>") \o BlockSeq(inner, TRUE, Src, defs) \o S("</li>") \o close >>
+\* C14, first clause, on HTML: CRLF and CR line endings give the same HTML up to the line endings that are copied
+EolNorm(h) == LET RECURSIVE F(_) F(i) == IF i > Len(h) THEN <<>>
+                                         ELSE IF h[i] = CR /\ i < Len(h) /\ h[i + 1] = LF THEN <<LF>> \o F(i + 2)
+                                         ELSE IF h[i] = CR THEN <<LF>> \o F(i + 1) ELSE <<h[i]>> \o F(i + 1)
+              IN F(1)
+DocWithEOL(d, eol) == [k \in 1..Len(d) |-> B!WithEOL(d[k], eol)]
+EolHtmlLemma ==
+  (doc # <<>> /\ \A k \in 1..Len(Src) : Src[k] # CR) =>
+     \A eol \in {<<CR, LF>>, <<CR>>} :
+        LET h == HtmlOf(B!Flatten(DocWithEOL(doc, eol))) IN
+        Len(h) = Len(HtmlOf(Src)) /\ \A i \in 1..Len(h) : EolNorm(h[i]) = HtmlOf(Src)[i]
+\* C14, third clause, on HTML: a missing final line ending changes nothing but trailing white space of raw HTML
+RECURSIVE StripTail(_)
+StripTail(h) == IF h # <<>> /\ h[Len(h)] \in {LF, CR, SP, TAB} THEN StripTail(SubSeq(h, 1, Len(h) - 1)) ELSE h
+FinalNewlineHtmlLemma ==
+  (doc # <<>> /\ doc[Len(doc)][Len(doc[Len(doc)])] \notin {LF, CR}) =>
+     LET a == HtmlOf(Src)  b == HtmlOf(Src \o <<LF>>) IN
+     Len(a) = Len(b) /\ \A i \in 1..Len(a) : StripTail(a[i]) = StripTail(b[i])
+\* C16 on HTML: a root block parsed alone renders as it does in the document, when the document defines no references
+ReparseHtmlLemma ==
+  (doc # <<>> /\ DefsOf(B!ParseDoc(Src)) = <<>>) =>
+     LET roots == B!ParseDoc(Src) IN
+     \A r \in 1..Len(roots) :
+        LET ls == B!LineStartBefore(Src, roots[r].s)
+            alone == HtmlOf(SubSeq(Src, ls + 1, roots[r].e))
+        IN alone = << HtmlOf(Src)[r] >>
 =============================================================================
